@@ -127,7 +127,15 @@ def run(rep: Report, tier: str) -> None:
     defs = m.field_defs(cit)
     step = defs.get("ChronologicalAccountingMethodIterator.__step", [])
     st = show(step[0][1]) if step else ""
-    ok = st.startswith("(1 if") and "OLDER_TO_NEWER" in st and st.endswith("else -1)")
+    ok = False
+    if len(step) == 1:
+        # read with the constructor's locals substituted (`older = order_type == OLDER_TO_NEWER; step = 1 if older else -1` is the same definition)
+        init_f = m.init_of(cit)
+        t = norm.term(step[0][2].value, norm.ctx_for(init_f, subst_locals=True))
+        st = show(t)
+        if t[0] == "ite" and t[2] == ("const", 1) and t[3] == ("const", -1) and t[1][0] == "cmp" and t[1][1] == "==":
+            sides = [show(x) for x in (t[1][2], t[1][3])]
+            ok = "order_type" in sides and any(s.endswith("OLDER_TO_NEWER") for s in sides)
     rep.check(ok, ra, AAM, "ChronologicalAccountingMethodIterator.__init__", "chronological iterator steps +1 for OLDER_TO_NEWER, -1 otherwise", f"chronological iterator step is {st}", loc(cit.node))
 
     # ---------------------------------------------------------------- C01.b / c
